@@ -1,20 +1,24 @@
 """C04 - modules and hierarchy mirror the scanned directory tree, named from root_path.
 
   C04.R1  entry points: the module-object entry point is a pure delegation (dirname(__file__) of its two module objects, every other
-          option forwarded to the same-named option); the path entry point hands each option to the consumer of that role
-          (Parser source root <- root_path, scan start <- module_path, file filter <- (regex_)exclusions, ...)
-  C04.R2  one registration per non-excluded directory / .py file (rules/scan.py, shared with C08)
+          option forwarded to the same-named option with the same default) - or, without a direct call, performs the same calls of
+          the scanning API; the path entry point hands each option to the consumer of that role (Parser source root <- root_path,
+          scan start <- module_path, file filter <- (regex_)exclusions, external filter <- its flag and patterns, graph <- level_limit)
+  C04.R2  a module is registered exactly for every non-excluded directory / .py file; descent, reading and parsing only after the
+          exclusion test on the path itself (rules/scan.py, shared with C08)
   C04.R3  naming: root directory name + '.' + path relative to the root, suffix removed, one component per path part;
           the root itself is named by its directory name
-  C04.R4  hierarchy: every scanned module becomes a node; all its ancestors become nodes and consecutive (parent, child) pairs get
-          an `inherits=True` edge; nodes are never created from *imported* names
-  C04.R5  prefixes: absolute-import prefix = module_path.parent relative to root_path.parent (dotted), empty iff root == module
-          path; every absolute importee is `prefix.name` when that is a scanned module (the sub-module test of `from x import y`
-          is made on the adjusted name), relative importees never are; no character-set strip used as prefix/suffix removal
+  C04.R4  hierarchy: every scanned module becomes a node; all its ancestors (get_parent_modules) become nodes and every consecutive
+          (parent, child) pair of the chain gets an `inherits=True` edge; nodes are never created from *imported* names
+  C04.R5  prefixes: absolute-import prefix = module_path.parent relative to root_path.parent (dotted), used whenever module_path
+          differs from root_path; the internal-module set comes from the scan; every absolute importee is `prefix.name` exactly when
+          that is a scanned module (the sub-module test of `from x import y` is made on the adjusted name; decision table over all
+          membership scenarios), relative importees never are; no character-set strip used as prefix/suffix removal
 
 All rules are evaluated on symbolic executions of *public* entry points (rules/c04_symx.py): `get_evaluable_architecture`,
-`Parser.parse`, `NetworkxGraph.__init__`, `ImportConverter.convert`.  Private helpers are found by being reached from there, never
-by name; locals never appear in what is compared.
+`get_evaluable_architecture_for_module_objects`, `Parser.parse`, `NetworkxGraph.__init__`, `ImportConverter.convert`.  Private helpers
+are found by being reached from there, never by name; locals never appear in what is compared; values are compared in normal forms
+(rules/c04_norm.py).  A shape that cannot be interpreted is reported as undecided, never as a violation.
 """
 
 from __future__ import annotations
@@ -647,8 +651,8 @@ def rule_r4(repo: Repo, res: Result) -> None:
         """The node / edge is created whenever the graph does not contain it yet (edges: and contains both ends)."""
         f = f_and(e.pc)
         free = _graph_state_atoms(sx, f, graph, config, tuple(e.args[:2]) if e.name == "add_edge" else ())
-        if any(l.early_exit for l in e.loops):
-            l = next(l for l in e.loops if l.early_exit)
+        if any(l.early_exit and not l.exits_only_when_exhausted() for l in e.loops):
+            l = next(l for l in e.loops if l.early_exit and not l.exits_only_when_exhausted())
             return False, f"the enclosing loop `{norm(l.node, 60).split(':')[0]}` can be left early (break / return)"
         # the state in which the creation matters: the node is absent / both ends are present, differ, and are not linked yet
         fixed: dict[str, bool] = {}
